@@ -136,7 +136,7 @@ def _c(v):
 
 
 # ---------------------------------------------------------------- sub-checks
-@sub("C13.stable", strategy=burg_case(), quick=800, thorough=40000,
+@sub("C13.stable", strategy=burg_case(), quick=800, thorough=24000,
      doc="arburg(x,p): |k_i| <= 1, own step-up of k == returned a, roots of [1,a] inside the unit circle, lengths p")
 def c13_stable(ctx, case):
     d = _domain(ctx, case)
@@ -163,7 +163,7 @@ def c13_stable(ctx, case):
                   "real data gave coefficients with an imaginary part")
 
 
-@sub("C13.rho", strategy=burg_case(), quick=800, thorough=40000,
+@sub("C13.rho", strategy=burg_case(), quick=800, thorough=24000,
      doc="arburg variance == mean|x|^2 * prod(1-|k_i|^2) (returned k), real, 0 < rho <= mean|x|^2")
 def c13_rho(ctx, case):
     d = _domain(ctx, case)
@@ -184,7 +184,7 @@ def c13_rho(ctx, case):
     ctx.close(float(np.real(rho)), rr, "rho vs reference recursion", rtol=1e-8 + 1e-10 * float(ratio[-1]), atol=0)
 
 
-@sub("C13.nested", strategy=burg_case(extra="q"), quick=800, thorough=40000,
+@sub("C13.nested", strategy=burg_case(extra="q"), quick=800, thorough=24000,
      doc="arburg(x,q) for q in {1, drawn q, p-1}: k is the length-q prefix of the order-p k, rho_q >= rho_p, "
          "rho_1 >= rho_q' >= ... non-increasing")
 def c13_nested(ctx, case):
@@ -212,7 +212,7 @@ def c13_nested(ctx, case):
                   rtol=0, atol=1e-10 * max(1.0, float(np.max(np.abs(aq)))))
 
 
-@sub("C13.stage", strategy=burg_case(), quick=800, thorough=40000,
+@sub("C13.stage", strategy=burg_case(), quick=800, thorough=24000,
      doc="every k_i == -2 sum f conj(b) / sum(|f|^2+|b|^2) with f,b the stage-i errors of the textbook lattice driven "
          "by the returned k_1..k_{i-1}; the stage energy at k_i +- eps (and +- i eps) is not smaller")
 def c13_stage(ctx, case):
@@ -243,7 +243,7 @@ def c13_stage(ctx, case):
                   % (i + 1, complex(k[i]), complex(kref[i])))
 
 
-@sub("C13.arburg2", strategy=burg_case(), quick=800, thorough=40000,
+@sub("C13.arburg2", strategy=burg_case(), quick=800, thorough=24000,
      doc="_arburg2(x,p) (vectorised formulation): a[0]==1, a[1:] and k agree with arburg")
 def c13_arburg2(ctx, case):
     d = _domain(ctx, case)
@@ -260,7 +260,7 @@ def c13_arburg2(ctx, case):
     ctx.close(_c(a2)[1:], _c(a), "_arburg2 AR vector vs arburg", rtol=0, atol=10 * tol * scale * p)
 
 
-@sub("C13.criteria", strategy=burg_case(extra="crit"), quick=1200, thorough=60000,
+@sub("C13.criteria", strategy=burg_case(extra="crit"), quick=1200, thorough=36000,
      doc="arburg(x,p,criteria=c) == arburg(x,q) for q = len(a) <= p (q = 0: empty vectors, rho == mean|x|^2), "
          "for c in AIC, AICc, KIC, FPE, AKICc, MDL")
 def c13_criteria(ctx, case):
